@@ -250,6 +250,9 @@ static int parsec_termdet_fourcounter_topology_parent(parsec_taskpool_t *tp)
 static void parsec_termdet_fourcounter_monitor_taskpool(parsec_taskpool_t *tp,
                                                         parsec_termdet_termination_detected_function_t cb)
 {
+#if defined(ICLDISCO_PARSEC_VERIF)
+    (void)PARSEC_VERIF_EVENT(PARSEC_VERIF_EV_TD4C, tp, (void*)"monitor_taskpool");
+#endif
     parsec_termdet_fourcounter_monitor_t *tpm;
     assert(&parsec_termdet_fourcounter_module.module == tp->tdm.module);
     tpm = (parsec_termdet_fourcounter_monitor_t*)malloc(sizeof(parsec_termdet_fourcounter_monitor_t));
@@ -324,6 +327,9 @@ static parsec_termdet_taskpool_state_t parsec_termdet_fourcounter_taskpool_state
 
 static int parsec_termdet_fourcounter_taskpool_ready(parsec_taskpool_t *tp)
 {
+#if defined(ICLDISCO_PARSEC_VERIF)
+    (void)PARSEC_VERIF_EVENT(PARSEC_VERIF_EV_TD4C, tp, (void*)"taskpool_ready");
+#endif
     parsec_termdet_fourcounter_monitor_t *tpm;
     parsec_list_item_t *item, *next;
     parsec_termdet_fourcounter_delayed_msg_t *delayed_msg;
@@ -467,6 +473,9 @@ static void parsec_termdet_fourcounter_check_state_workload_changed(parsec_termd
 
 static int parsec_termdet_fourcounter_taskpool_set_nb_tasks(parsec_taskpool_t *tp, int v)
 {
+#if defined(ICLDISCO_PARSEC_VERIF)
+    (void)PARSEC_VERIF_EVENT(PARSEC_VERIF_EV_TD4C, tp, (void*)"taskpool_set_nb_tasks");
+#endif
     parsec_termdet_fourcounter_monitor_t *tpm;
     assert( tp->tdm.module != NULL );
     assert( tp->tdm.module == &parsec_termdet_fourcounter_module.module );
@@ -484,6 +493,9 @@ static int parsec_termdet_fourcounter_taskpool_set_nb_tasks(parsec_taskpool_t *t
 
 static int parsec_termdet_fourcounter_taskpool_set_runtime_actions(parsec_taskpool_t *tp, int v)
 {
+#if defined(ICLDISCO_PARSEC_VERIF)
+    (void)PARSEC_VERIF_EVENT(PARSEC_VERIF_EV_TD4C, tp, (void*)"taskpool_set_runtime_actions");
+#endif
     parsec_termdet_fourcounter_monitor_t *tpm;
     assert( tp->tdm.module != NULL );
     assert( tp->tdm.module == &parsec_termdet_fourcounter_module.module );
@@ -501,6 +513,9 @@ static int parsec_termdet_fourcounter_taskpool_set_runtime_actions(parsec_taskpo
 
 static int parsec_termdet_fourcounter_taskpool_addto_nb_tasks(parsec_taskpool_t *tp, int v)
 {
+#if defined(ICLDISCO_PARSEC_VERIF)
+    (void)PARSEC_VERIF_EVENT(PARSEC_VERIF_EV_TD4C, tp, (void*)"taskpool_addto_nb_tasks");
+#endif
     int ret;
     assert( tp->tdm.module != NULL );
     assert( tp->tdm.module == &parsec_termdet_fourcounter_module.module );
@@ -523,6 +538,9 @@ static int parsec_termdet_fourcounter_taskpool_addto_nb_tasks(parsec_taskpool_t 
 
 static int parsec_termdet_fourcounter_taskpool_addto_runtime_actions(parsec_taskpool_t *tp, int v)
 {
+#if defined(ICLDISCO_PARSEC_VERIF)
+    (void)PARSEC_VERIF_EVENT(PARSEC_VERIF_EV_TD4C, tp, (void*)"taskpool_addto_runtime_actions");
+#endif
     int ret;
     assert( tp->tdm.module != NULL );
     assert( tp->tdm.module == &parsec_termdet_fourcounter_module.module );
@@ -547,6 +565,9 @@ static int parsec_termdet_fourcounter_outgoing_message_start(parsec_taskpool_t *
                                                              int dst_rank,
                                                              parsec_remote_deps_t *remote_deps)
 {
+#if defined(ICLDISCO_PARSEC_VERIF)
+    (void)PARSEC_VERIF_EVENT(PARSEC_VERIF_EV_TD4C, tp, (void*)"outgoing_message_start");
+#endif
     parsec_termdet_fourcounter_monitor_t *tpm;
     assert( tp->tdm.module != NULL );
     assert( tp->tdm.module == &parsec_termdet_fourcounter_module.module );
@@ -567,6 +588,9 @@ static int parsec_termdet_fourcounter_outgoing_message_pack(parsec_taskpool_t *t
                                                             int *position,
                                                             int buffer_size)
 {
+#if defined(ICLDISCO_PARSEC_VERIF)
+    (void)PARSEC_VERIF_EVENT(PARSEC_VERIF_EV_TD4C, tp, (void*)"outgoing_message_pack");
+#endif
     assert( tp->tdm.module != NULL );
     assert( tp->tdm.module == &parsec_termdet_fourcounter_module.module );
     /* No piggybacking */
@@ -585,6 +609,9 @@ static int parsec_termdet_fourcounter_incoming_message_start(parsec_taskpool_t *
                                                              int buffer_size,
                                                              const parsec_remote_deps_t *msg)
 {
+#if defined(ICLDISCO_PARSEC_VERIF)
+    (void)PARSEC_VERIF_EVENT(PARSEC_VERIF_EV_TD4C, tp, (void*)"incoming_message_start");
+#endif
     parsec_termdet_fourcounter_monitor_t *tpm;
     assert( tp->tdm.module != NULL );
     assert( tp->tdm.module == &parsec_termdet_fourcounter_module.module );
@@ -619,6 +646,9 @@ static int parsec_termdet_fourcounter_incoming_message_start(parsec_taskpool_t *
 static int parsec_termdet_fourcounter_incoming_message_end(parsec_taskpool_t *tp,
                                                            const parsec_remote_deps_t *msg)
 {
+#if defined(ICLDISCO_PARSEC_VERIF)
+    (void)PARSEC_VERIF_EVENT(PARSEC_VERIF_EV_TD4C, tp, (void*)"incoming_message_end");
+#endif
     parsec_termdet_fourcounter_monitor_t *tpm;
     (void)msg;
 
@@ -638,6 +668,9 @@ static int parsec_termdet_fourcounter_incoming_message_end(parsec_taskpool_t *tp
 
 static void parsec_termdet_fourcounter_msg_down(parsec_termdet_fourcounter_msg_down_t *msg, int src, parsec_taskpool_t *tp)
 {
+#if defined(ICLDISCO_PARSEC_VERIF)
+    (void)PARSEC_VERIF_EVENT(PARSEC_VERIF_EV_TD4C, tp, (void*)"msg_down");
+#endif
     int i;
     parsec_termdet_fourcounter_monitor_t *tpm;
 
@@ -690,6 +723,9 @@ static void parsec_termdet_fourcounter_msg_down(parsec_termdet_fourcounter_msg_d
 
 static void parsec_termdet_fourcounter_msg_up(parsec_termdet_fourcounter_msg_up_t *msg, int src, parsec_taskpool_t *tp)
 {
+#if defined(ICLDISCO_PARSEC_VERIF)
+    (void)PARSEC_VERIF_EVENT(PARSEC_VERIF_EV_TD4C, tp, (void*)"msg_up");
+#endif
     parsec_termdet_fourcounter_monitor_t *tpm;
 
     (void)src;
